@@ -11,6 +11,7 @@ import (
 	"context"
 	"fmt"
 	"math"
+	"sort"
 	"strings"
 	"sync"
 
@@ -256,9 +257,19 @@ func (e *Eval) Dump() error {
 		fmt.Printf("\nUser-defined functions:\n")
 	}
 
+	// The functions are held in a map, so sort their names: the
+	// same script should always be dumped the same way.
+	names := make([]string, 0, len(funs))
+	for name := range funs {
+		names = append(names, name)
+	}
+	sort.Strings(names)
+
 	// For each function
 	count := 0
-	for name, obj := range funs {
+	for _, name := range names {
+		obj := funs[name]
+
 		// Show brief information
 		fmt.Printf(" function %s(%s)\n", name, strings.Join(obj.Arguments, ","))
 
